@@ -91,6 +91,7 @@ func c10World(tp *Tape, env *Env) (*Plan, *Violation) {
 		env.St.distinct("schedules", hashStr(scheduleShape(ops)))
 	}
 	env.St.sample(map[string]any{"script": readerTexts(&w), "ops": summarizeOps(ops), "handlers": cfg.Handlers, "scheds": w.Host.Scheds})
+	journal(plan)
 	return plan, c10Exec(plan, env.St)
 }
 
